@@ -106,6 +106,55 @@ Definition run_2001 (input impl : sx) : sx :=
 (* kind 2002: (sel bytes) -> (#1 value unknown.. size) | (#0).
    Spec ("a value or an error, never a panic, never more than the input"): the output is an
    error or a value whose byte-like fields together are no longer than the input. *)
+(* Independent account of the unknown fields of an input: split the message into records with
+   Skip only (no typed decoding) and keep, verbatim and in order, those whose field number is
+   outside the schema 1..maxfn.  A decoder that accepts the input must retain exactly these
+   bytes (nothing dropped, nothing reordered). *)
+Fixpoint unknown_walk (maxfn : N) (fuel : nat) (l : bytes) : option bytes :=
+  match l with
+  | [] => Some []
+  | _ :: _ =>
+    match fuel with
+    | O => None
+    | S f =>
+      match get_tag l, skip l with
+      | Some (fn, _, _), Some r =>
+        match unknown_walk maxfn f r with
+        | Some u => Some (if (1 <=? fn) && (fn <=? maxfn) then u else firstn (length l - length r) l ++ u)
+        | None => None
+        end
+      | _, _ => None
+      end
+    end
+  end.
+(* unknown fields of the Stat payloads (field 2) of a Packet, merged in order *)
+Fixpoint stat_unknown_walk (fuel : nat) (l : bytes) : option bytes :=
+  match l with
+  | [] => Some []
+  | _ :: _ =>
+    match fuel with
+    | O => None
+    | S f =>
+      match get_tag l, skip l with
+      | Some (fn, _, r0), Some r =>
+        match stat_unknown_walk f r with
+        | Some u =>
+          if fn =? 2 then
+            match get_bytes r0 with
+            | Some (payload, _) =>
+              match unknown_walk 10 (length payload) payload with Some w => Some (w ++ u) | None => None end
+            | None => None
+            end
+          else Some u
+        | None => None
+        end
+      | _, _ => None
+      end
+    end
+  end.
+Definition unk_ok (u : bytes) (w : option bytes) : bool :=
+  match w with Some x => bytes_eqb u x | None => true end.
+
 Definition run_2002 (input impl : sx) : sx :=
   match input with
   | SL [SN sel; SB b] =>
@@ -118,7 +167,10 @@ Definition run_2002 (input impl : sx) : sx :=
       let sp := match impl with
                 | SL [SN 0] => true
                 | SL [SN 1; sv; SB u; SN _] =>
-                  match dec_stat sv with Some s => stat_alloc (s, u) <=? len b | None => false end
+                  match dec_stat sv with
+                  | Some s => (stat_alloc (s, u) <=? len b) && unk_ok u (unknown_walk 10 (length b) b)
+                  | None => false
+                  end
                 | _ => false
                 end in
       let over := match md with Some su => negb (stat_alloc su <=? len b) | None => false end in
@@ -133,7 +185,11 @@ Definition run_2002 (input impl : sx) : sx :=
       let sp := match impl with
                 | SL [SN 0] => true
                 | SL [SN 1; pv; SB su; SB u; SN _] =>
-                  match dec_packet pv with Some p => packet_alloc (p, su, u) <=? len b | None => false end
+                  match dec_packet pv with
+                  | Some p => (packet_alloc (p, su, u) <=? len b) && unk_ok u (unknown_walk 4 (length b) b)
+                              && unk_ok su (stat_unknown_walk (length b) b)
+                  | None => false
+                  end
                 | _ => false
                 end in
       let over := match md with Some x => negb (packet_alloc x <=? len b) | None => false end in
@@ -547,6 +603,46 @@ Definition run_2008 (input impl : sx) : sx :=
     match hist_run isp start ops (match impl with SL l => l | _ => [] end) with
     | Some r => verdict (SL (fst r)) impl (snd r) (SL [])
     | None => v_malformed
+    end
+  | _ => v_malformed
+  end.
+
+(* kind 2009: (mode recv-packets lens send-packets schedule) -> ((full-stream (item..)) (frame..)):
+   ONE protoStream used in both directions, SendMsg calls forced between the pieces in which
+   its reader delivers the incoming stream (e.g. inside the 4-byte prefix).  The directions are
+   independent in the model: the incoming side is judged as in kind 2004, and every frame
+   SendMsg wrote must be the intact frame of its packet. *)
+Fixpoint sent_frames (ps : list packet) (frs : list sx) : list sx * bool :=
+  match ps with
+  | [] => ([], match frs with [] => true | _ => false end)
+  | p :: ps' =>
+    let f := match frs with SB f :: _ => f | _ => [] end in
+    let body := skipn 4 f in
+    let o := packet_order p body in
+    let ok := match frs with
+              | SB _ :: _ =>
+                (4 <=? len f) && (be32_dec (firstn 4 f) =? len body) &&
+                match decode_packet_u body with
+                | Some (p', su, u) => packet_eqb p' p && bytes_eqb su [] && bytes_eqb u []
+                | None => false
+                end
+              | _ => false
+              end in
+    let rr := sent_frames ps' (match frs with _ :: t => t | [] => [] end) in
+    (SB (frame (encode_packet_ord o p)) :: fst rr, ok && snd rr)
+  end.
+Definition run_2009 (input impl : sx) : sx :=
+  match input with
+  | SL [SN mode; rps; lens; sps; SL _] =>
+    match sx_list dec_packet rps, sx_list dec_piece lens, sx_list dec_packet sps with
+    | Some msgs, Some ls, Some sends =>
+      let impl_r := match impl with SL [r; _] => r | _ => SL [] end in
+      let impl_f := match impl with SL [_; SL f] => f | _ => [] end in
+      let r := framing_case (N.land mode 1) msgs ls [] impl_r in
+      let s := sent_frames sends impl_f in
+      let shape := match impl with SL [_; SL _] => true | _ => false end in
+      verdict (SL [fst r; SL (fst s)]) impl (shape && snd r && snd s) (SL [])
+    | _, _, _ => v_malformed
     end
   | _ => v_malformed
   end.
